@@ -38,6 +38,10 @@ def rust_field_name(name):
     return sn + "_" if sn in KEYWORDS else sn
 
 
+ENUM_DBG_GLUE = '''        ("op", "dbg") => { let v: op::ResponseData = serde_json::from_value(arg).map_err(|e| e.to_string())?; Ok(format!("{:?}", v.e)) }
+'''
+
+
 def snake_ident_ok(name):
     """Does the name survive snake_case conversion as a Rust identifier? (reference side of finding 14)"""
     core = name.strip("_")
@@ -118,7 +122,7 @@ def run(tier):
             # positions whose Rust identifier goes through the normalization: also under normalization = rust
             if pos in ("enum_value", "oneof_member", "variable", "input_field", "recursive_input_field"):
                 mods.append({"name": name, "class": klass, "pos": pos, "schema": schema, "doc": doc, "fmt": "sdl", "norm": "rust"})
-    resps = generate([gen_request(m["schema"].sdl() if m["fmt"] == "sdl" else m["schema"].introspection(), gql.render_doc(m["doc"]), dict(DEFAULT_OPTS, normalization=m.get("norm", "none")),
+    resps = generate([gen_request(m["schema"].sdl() if m["fmt"] == "sdl" else m["schema"].introspection(), gql.render_doc(m["doc"]), dict(DEFAULT_OPTS, normalization=m.get("norm", "none"), **({"response_derives": "Serialize,Debug"} if m["pos"] == "enum_value" else {})),
                                   ext="graphql" if m["fmt"] == "sdl" else "json") for m in mods])
     farm = Farm("c11")
     for m, r in zip(mods, resps):
@@ -135,7 +139,7 @@ def run(tier):
             rep.violation("generation_failed", m["label"], (r.get("msg") or r["status"])[:300], sigs)
             m["case"] = None
             continue
-        m["case"] = farm.add(Case(r["tokens"], [("op", "Op")]))
+        m["case"] = farm.add(Case(r["tokens"], [("op", "Op")], extra_glue=ENUM_DBG_GLUE if m["pos"] == "enum_value" else ""))
     farm.build()
     reqs, meta = [], []
     for m in mods:
@@ -162,6 +166,11 @@ def run(tier):
             reqs.append({"case": m["case"], "module": "op", "what": "vars", "arg": {"p": {n: 7}}})
         else:
             reqs.append({"case": m["case"], "module": "op", "what": "resp", "arg": {"e": n}})
+            meta.append(m)
+            # (a round trip alone cannot tell the value's own variant from the catch-all, which keeps any string)
+            reqs.append({"case": m["case"], "module": "op", "what": "dbg", "arg": {"e": n}})
+            meta.append(dict(m, dbg=True))
+            continue
         meta.append(m)
     fres = farm.run(reqs)
     outcomes = {}
@@ -170,6 +179,11 @@ def run(tier):
         if not r or not r.get("ok"):
             outcomes["rejected"] = outcomes.get("rejected", 0) + 1
             rep.violation("graphql_name_not_accepted_on_the_wire", dict(m["label"], payload=q["arg"]), (r or {}).get("err"), m["sigs"])
+            continue
+        if m.get("dbg"):
+            if r["out"].startswith("Other("):
+                rep.violation("wire_name_differs_from_graphql_name", dict(m["label"], payload=q["arg"]),
+                              "the enum value's GraphQL name is not the string of its variant: it lands in the catch-all %s" % r["out"], m["sigs"])
             continue
         out = json.loads(r["out"])
         if m["pos"] in ("response_field", "alias", "alias_of_own_rust_name"):
